@@ -46,6 +46,9 @@ pub struct Config {
     /// R-alloc: `Vec::with_capacity(E)` -> `vx_with_capacity(E)`, `VecDeque::with_capacity(E)` -> `vx_deque_with_capacity(E)` (prelude: `requires` the request to be covered
     /// by the caller's pre-flight allocation check): the capacity request becomes a proof obligation
     pub ralloc: bool,
+    /// R-rangeiter: a parenthesised integer range used as an iterator, `(A..B).m(..)` -> `vx_range(A, B).m(..)` (prelude: the model
+    /// iterator over A, A+1, .., B-1; std's adaptor methods on `Range` cannot be given a contract in place)
+    pub rrangeiter: bool,
     pub state_methods: Vec<String>,
     pub state_calls: Vec<String>,
     pub state_arg: String,
@@ -80,6 +83,7 @@ impl Config {
             drop_stmts: strs(&v["drop_stmts"]).iter().map(|s| norm(s)).collect(),
             rfor: v["rfor"].as_bool().unwrap_or(false),
             ralloc: v["ralloc"].as_bool().unwrap_or(false),
+            rrangeiter: v["rrangeiter"].as_bool().unwrap_or(false),
             mirror: v["mirror"]
                 .as_object()
                 .map(|m| m.iter().map(|(k, t)| (k.clone(), t.as_str().unwrap_or("").to_string())).collect())
@@ -954,6 +958,35 @@ impl<'a, 'ast> Visit<'ast> for Rewriter<'a> {
 
     fn visit_expr_method_call(&mut self, m: &'ast ExprMethodCall) {
         let name = m.method.to_string();
+        if self.cfg.rrangeiter {
+            if let Expr::Paren(p) = &*m.receiver {
+                if let Expr::Range(rg) = &*p.expr {
+                    if let (Some(a), Some(b), RangeLimits::HalfOpen(_)) = (&rg.start, &rg.end, &rg.limits) {
+                        self.visit_expr(a);
+                        self.visit_expr(b);
+                        for x in m.args.iter() {
+                            self.visit_expr(x);
+                        }
+                        let ar = self.r(a.span());
+                        let br = self.r(b.span());
+                        let whole = self.r(m.receiver.span());
+                        self.edits.replace(
+                            whole,
+                            vec![
+                                Piece::Lit("vx_range(".into()),
+                                Piece::Src(ar.0, ar.1),
+                                Piece::Lit(", ".into()),
+                                Piece::Src(br.0, br.1),
+                                Piece::Lit(")".into()),
+                            ],
+                            "R-rangeiter",
+                        );
+                        self.note("R-rangeiter", m.span());
+                        return;
+                    }
+                }
+            }
+        }
         if !self.cfg.state_arg.is_empty() && self.cfg.state_methods.contains(&name) {
             let at = self.r(m.paren_token.span.close()).0;
             let sep = if m.args.is_empty() || m.args.trailing_punct() { "" } else { ", " };
